@@ -54,7 +54,7 @@ try:
         meta["checks"][c] = {"detected": "VIOLATION" in r.stdout, "exit": r.returncode, "seconds": round(time.time() - t0), "first": first}
     shutil.copyfile(os.path.join(src, "demo_test.go"), os.path.join(wt, demo_path))
     # demo without the change
-    sh(["git", "checkout", "--", "."])
+    sh(["git", "checkout", "HEAD", "--", "."])
     d2 = sh(["go1.27.0", "test", "-vet=off", "-count=1", "-run", "SeededDemo", pkg])
     meta["demo_without_change"] = "PASS" if d2.returncode == 0 else "FAIL " + d2.stdout[-300:]
 finally:
